@@ -1,13 +1,13 @@
 """ad-hoc: python3 lib/runh.py <group> <mode> <timeout> <workers> harness..."""
 import sys; sys.path.insert(0,'/verif/lib')
-import kanirun, specs
+import kanirun, specs, os
 from concurrent.futures import ThreadPoolExecutor
 g=specs.group(sys.argv[1]); g.materialize()
 mode=sys.argv[2]; to=int(sys.argv[3]); w=int(sys.argv[4])
 def run(h):
     m=mode
     if '@' in h: h,m=h.split('@')
-    r=kanirun.run_job(g,h,mode=m,timeout_s=to, mem_gb=16)
+    r=kanirun.run_job(g,h,mode=m,timeout_s=to, mem_gb=int(os.environ.get('RUNH_MEM','16')))
     print((h,r['class'], r['wall_s'], round(r['symex_s']), round(r['solver_s']), r['steps'], [f['desc'][:90]+' @'+f['loc'][-60:] for f in r.get('failed')][:6], [c['desc'] for c in r.get('unsat_covers')]), flush=True)
 with ThreadPoolExecutor(w) as ex:
     list(ex.map(run,sys.argv[5:]))
